@@ -6,7 +6,7 @@
       state   (index pending pendingReplace pos maxTXID1 commit lockType)
       ledger  ((commit (pgno ...)) ...)            L0 file t..t at position t (1-based) *)
 From Coq Require Import List NArith ZArith Bool.
-From LS Require Import Base.Sx Base.PMap Vfs.Index Vfs.Poll Vfs.Restore Vfs.Domain Vfs.TimeTravel.
+From LS Require Import Base.Sx Base.PMap Vfs.Index Vfs.Poll Vfs.Restore Vfs.Domain Vfs.TimeTravel Vfs.Hydration.
 Import ListNotations.
 Open Scope N_scope.
 
@@ -93,9 +93,9 @@ Definition vfs_poll_domain (x : sx) : sx :=
 Definition vfs_open_domain (x : sx) : sx := sxB (open_size_domain (files_of_sx (nthx 0 x))).
 
 (** model entry: one step of the time-travel machine (Vfs/TimeTravel.v).
-    input  [state; target set?; op]   op = (0 lock) Lock | (1 lock) Unlock | (2 L0 L1) poll |
+    input  [state; target set?; op; reads served from the hydrated file?]   op = (0 lock) Lock | (1 lock) Unlock | (2 L0 L1) poll |
                                            (3 plan) SetTargetTime | (4 plan) ResetTime
-    output [ok; state'; target set?; FileSize / pageSize]   (ok = 0: error, state unchanged) *)
+    output [ok; state'; target set?; FileSize / pageSize; hydrated reads?]   (ok = 0: error, state unchanged) *)
 Definition op_of_sx (x : sx) : op :=
   let k := asN (nthx 0 x) in
   if N.eqb k 0 then OLock (asN (nthx 1 x))
@@ -105,8 +105,11 @@ Definition op_of_sx (x : sx) : op :=
   else OReset (files_of_sx (nthx 1 x)).
 
 Definition vfs_step (x : sx) : sx :=
-  let s := mkT (state_of_sx (nthx 0 x)) (asB (nthx 1 x)) in
-  match tstep s (op_of_sx (nthx 2 x)) with
-  | Some s' => SL [sxN 1; sx_state (t_v s'); sxB (t_target s'); sxN (file_size_pages (t_v s'))]
-  | None => SL [sxN 0; sx_state (t_v s); sxB (t_target s); sxN (file_size_pages (t_v s))]
+  let s := mkH (mkT (state_of_sx (nthx 0 x)) (asB (nthx 1 x))) (asB (nthx 3 x)) [] in
+  let out (ok : N) (s' : hvfs) :=
+    SL [sxN ok; sx_state (t_v (h_t s')); sxB (t_target (h_t s')); sxN (file_size_pages (t_v (h_t s')));
+        sxB (h_on s')] in
+  match hstep s (HOp (op_of_sx (nthx 2 x))) with
+  | Some s' => out 1 s'
+  | None => out 0 s
   end.
